@@ -118,6 +118,10 @@ def skeleton (t : Proto.Tx) : Nat × Nat × List Nat := (t.ref, t.clock, t.prevs
 /-- the keys C08's IBLT holds for the refs C07's `State.IBLT(lc)` abstracts as a set -/
 def ikeyOf (w : Wire) (r : Nat) : C08.IKey := ⟨embRef r, w.hk r, w.idx r⟩
 
+/-- the IBLT C08 computes for a set of refs as C07 lists it (newest first): inserted oldest first into the empty IBLT -/
+def ibltOfSet (n : Nat) (w : Wire) (refs : List Nat) : C08.Iblt n :=
+  refs.foldr (fun r g => (C08.ibltOps n).ins g (ikeyOf w r)) (C08.ibltOps n).zero
+
 /-- C07's payload argument of `Add` as C06 sees it: payloads are identified by their hash -/
 def viewPayload (sha : Nat → Nat) (p : Nat) : Proto.Payload := { (default : Proto.Payload) with sha := sha p }
 
